@@ -110,7 +110,7 @@ def mirrorStep (st : St) : List String → St × String
         | none => (st, "bad-op")
       | ["alias", h] =>
         match parseNat? h with
-        | some h => if h < mir.heap.length then fin (.alias h) fun m => s!"ok {m.cur}" else (st, "bad-op")
+        | some h => if h < mir.heap.length then fin (.reassign h) fun m => s!"ok {m.cur}" else (st, "bad-op")
         | none => (st, "bad-op")
       | ["edit", h, i, x] =>
         match parseNat? h, parseNat? i, parseC? x with
